@@ -159,6 +159,7 @@ func (fr *frame) scanMods(m *loopMods, info *types.Info, nodes []ast.Node, depth
 			if pt, ok := info.TypeOf(x.X).Underlying().(*types.Pointer); ok {
 				if _, isStruct := pt.Elem().Underlying().(*types.Struct); isStruct {
 					m.addType(structClass(pt.Elem()), pt.Elem())
+					m.addElem(pt.Elem()) // the pointer may alias a slice element (p := &s[i]; *p = v)
 				} else {
 					m.addType("box<"+typeName(pt.Elem())+">", pt.Elem())
 				}
@@ -333,7 +334,21 @@ func (fr *frame) scanCallMods(m *loopMods, info *types.Info, call *ast.CallExpr,
 		}
 	}
 	if fn == nil {
-		return // calls of function values: contracts attached to types are handled below if any
+		// call of a function value: contract attached to its named function type (`func (f T) call(...)`)
+		if t := info.TypeOf(call.Fun); t != nil {
+			if n, ok := t.(*types.Named); ok && n.Obj().Pkg() != nil {
+				if sig, ok := n.Underlying().(*types.Signature); ok {
+					k2 := n.Obj().Pkg().Path() + "." + n.Obj().Name()
+					for _, k := range []string{k2 + ".call", k2} {
+						if c := reg.contracts[k]; c != nil {
+							fr.contractMods(m, c, reg.pkgs[n.Obj().Pkg().Path()], sig, nil)
+							return
+						}
+					}
+				}
+			}
+		}
+		return
 	}
 	full := fn.FullName()
 	if reg.isNoEffect(full) {
@@ -555,6 +570,66 @@ func (fr *frame) loopCore(st *State, node ast.Node, label string, scanNodes []as
 	fr.checkInvs(st, ls, "init")
 	m := newLoopMods()
 	fr.scanMods(m, fr.info, scanNodes, fr.depth)
+	// ghost updates of this frame's contract that can fire inside the loop: their targets are loop targets
+	if fr.contract != nil {
+		fires := func(where string) bool {
+			hit := false
+			for _, n := range scanNodes {
+				if n == nil {
+					continue
+				}
+				ast.Inspect(n, func(x ast.Node) bool {
+					switch y := x.(type) {
+					case *ast.FuncLit:
+						return false
+					case *ast.CallExpr:
+						name := calleeDisplayName(y, fr.info)
+						short := name[strings.LastIndex(name, ".")+1:]
+						ord := fr.callOrd[y]
+						for _, cand := range []string{name, short} {
+							if where == fmt.Sprintf("call[%d] %s", ord, cand) || where == "call "+cand {
+								hit = true
+							}
+						}
+					case *ast.ForStmt, *ast.RangeStmt:
+						if where == fmt.Sprintf("loop[%d]", fr.loopOrd[x]) {
+							hit = true
+						}
+					case *ast.SelectStmt:
+						if strings.HasPrefix(where, "select-case") {
+							hit = true
+						}
+					case *ast.SendStmt:
+						if where == "send" {
+							hit = true
+						}
+					}
+					return true
+				})
+			}
+			return hit
+		}
+		for _, cl := range fr.contract.Clauses {
+			if cl.Kind != "ghost" || !fires(cl.Where) {
+				continue
+			}
+			t := cl.Target
+			for t.Kind == SIndex {
+				t = t.X
+			}
+			env := fc.invEnv(st, fr)
+			for k, v := range ls.extra {
+				env.vars[k] = v
+			}
+			for _, ml := range env.evalModLoc(t) {
+				if classIsGlobal[ml.class] {
+					m.globals[ml.class] = classSorts[ml.class]
+				} else {
+					m.classes[ml.class] = classSorts[ml.class]
+				}
+			}
+		}
+	}
 	fr.havocLoop(st, m)
 	if extraHavoc != nil {
 		extraHavoc(st)
@@ -591,6 +666,22 @@ func (fr *frame) loopCore(st *State, node ast.Node, label string, scanNodes []as
 				panic(unsupported("loop post statement with control flow"))
 			}
 			s = po[0].st
+		}
+		// safety net: every heap class the body changed must have been havoc'd at the loop head
+		for c, t := range s.heap {
+			if ht, ok := head.heap[c]; ok && ht == t {
+				continue
+			}
+			if _, ok := m.classes[c]; ok {
+				continue
+			}
+			if _, ok := m.globals[c]; ok {
+				continue
+			}
+			if _, ok := head.heap[c]; !ok && t.Kind == KVar {
+				continue // first read only created the initial variable
+			}
+			panic(unsupported("loop body writes heap class " + c + " that the modification scan did not find (engine limitation)"))
 		}
 		fr.checkInvs(s, ls, "step")
 		if d0 != nil {
